@@ -61,6 +61,9 @@ CHECKS = {
  "C10": (True, MC, "exhaustive enumeration of adversarial namespace-URI sets x ways of declaring them x import orders on the real generator; bijections read from the syn item model",
          "11 adversarial URIs (equal last segments, equal three-letter abbreviations, dots and dashes, URN, upper case, trailing slash, leading digit, 'xml', non-ASCII): every single URI, every ordered pair x 3 ways of introducing the second namespace (root xmlns, nested xmlns on the referring component, targetNamespace of an imported file only), ordered triples x both import orders, families of 2..12 URIs with one abbreviation, two 6-sets (quick 490 states, thorough about 1.9 k). In each output the relation prefix -> URI over all namespaces maps and module -> URI over all structs must be bijections, prefixes must be NCNames, no module may hold two items of one name, every component must sit in its namespace's module and every member prefix must be bound to the member's declaring namespace; a subset is compiled.",
          "URIs are drawn from a fixed adversarial alphabet; sets of more than three URIs only for the equal-abbreviation families and two 6-sets.", "4/C10"),
+ "C14": (True, MC, "complete product of keywords / unusual names x naming positions and of payload strings x sinks on the real generator; syn item model and rustc as oracles",
+         "All 56 strict, reserved and weak keywords of edition 2024 and 13 unusual NCNames in each of 8 naming positions (element, attribute, complex type, simple type, global element, operation, message part, service), and 15 payload strings (quote, backslash, line breaks, braces, comment delimiters, three injection payloads carrying a marker function, non-ASCII, raw-string opener) in each of 6 sinks (enumeration value, facet value, documentation, namespace URI, port address, soapAction): the output must parse, every identifier of the syntax tree must be legal, the marker must never occur as an identifier or item, an enumeration value / namespace URI must be found as a string literal that evaluates to the original text; the cases are compiled (quick: a third of the name cases and all payload cases; thorough: all) and a driver checks enumeration membership of the original text at run time.",
+         "An input the generator rejects produces no output (no violation for payload strings, a violation for keyword / NCName names). Payloads in XML names are limited to what an NCName allows.", "4/C14"),
 }
 
 NOT_YET = {
